@@ -9,9 +9,9 @@ type propInfo struct {
 }
 
 var propTable = map[string]propInfo{
-	"C07": {"proof", "Literal handling as contracts on the real functions: encodeUTF8 is proved (64-bit bit-vector semantics, loop-free, all inputs) to produce, for every Unicode scalar value, exactly the well-formed UTF-8 sequence that an RFC 3629 decoder maps back to it, and is only ever called with scalar values (precondition proved at both call sites); hexDigitValue/isHexDigit/mustStayEscaped are exact; readString is specified per scanned element (per-iteration write sequences over the bytes after the cursor): ordinary bytes are copied verbatim with the cursor advancing by one, a double quote gets a backslash (the printer re-quotes with double quotes), unknown escapes (incl. line continuations and legacy octal) are kept verbatim, \\xHH and \\uHHHH are decoded only when the value can be written raw (not a quote, backslash, CR, LF, surrogate, and for \\xHH below 0x80) and otherwise kept verbatim, invalid \\x/\\u sequences are kept verbatim; readRawString copies bytes verbatim, one byte per cursor step, decoding only the escaped backtick, which MultiStringLiteral.WriteTo escapes again; number and identifier tokens are verbatim source slices (C10 [slice]); the parser stores literal tokens verbatim ([node]) and the literal printers write Token.Literal / the stored value unchanged between the delimiters ([syntax]); pretty-mode post-processing trims only spaces at line ends.", []string{
+	"C07": {"proof", "Literal handling as contracts on the real functions: encodeUTF8 is proved (64-bit bit-vector semantics, loop-free, all inputs) to produce, for every Unicode scalar value, exactly the well-formed UTF-8 sequence that an RFC 3629 decoder maps back to it, and is only ever called with scalar values (precondition proved at both call sites); hexDigitValue/isHexDigit/mustStayEscaped are exact; readString is specified per scanned element (per-iteration write sequences over the bytes after the cursor): ordinary bytes are copied verbatim with the cursor advancing by one, a double quote gets a backslash (the printer re-quotes with double quotes), unknown escapes (incl. line continuations and legacy octal) are kept verbatim, \\xHH and \\uHHHH are decoded only when the value can be written raw (not a quote, backslash, CR, LF, surrogate, decimal digit, and for \\xHH below 0x80) and otherwise kept verbatim, invalid \\x/\\u sequences are kept verbatim; readRawString copies bytes verbatim, keeps a backslash together with the character after it and decodes only the escaped backtick, which MultiStringLiteral.WriteTo escapes again; both scanners stop only at their delimiter or at the end of the input; number and identifier tokens are verbatim source slices (C10 [slice]); the parser stores literal tokens verbatim ([node]) and the literal printers write Token.Literal / the stored value unchanged between the delimiters ([syntax]); pretty-mode post-processing trims only spaces at line ends.", []string{
 		"the end-to-end statement 'the emitted literal denotes the same ECMAScript string value' is the composition of the per-element clauses (Meta M7, an induction over the literal's elements); a product-automaton proof over the whole literal is not mechanised",
-		"known residual: an escape kept verbatim directly after a legacy octal escape is fine, but a *decoded* digit after one fuses with it (\\0\\x31 -> \\01); braced \\u{...} escapes are covered only by the scalar-value precondition of encodeUTF8 and the frame/safety obligations, not by a write-sequence clause; a backslash pair directly before the closing backtick is mis-scanned by readRawString; trailing spaces inside multi-line backtick strings are trimmed in pretty mode",
+		"digits decoded from escapes stay escaped, so no decoded character can join a kept \\0/octal escape; both scanners are proved to end only at their delimiter or at the end of input (NUL is an ordinary byte); readRawString keeps a backslash together with the character after it. Known residual: braced \\u{...} escapes are covered only by the scalar-value precondition of encodeUTF8 and the frame/safety obligations, not by a write-sequence clause; trailing spaces inside multi-line backtick strings are trimmed in pretty mode",
 		"strconv.ParseInt/ParseFloat acceptance of numeric literals is a trusted library contract; JavaScript's numeric tokenisation agrees for literals starting with a digit",
 	}},
 	"C01": {"proof", "The syntactic sufficient condition for behaviour preservation is stated as contracts and discharged: (a) every parse function stores the token it consumes verbatim in the node it builds ([node] clauses: Token == the current token at entry, Operator/Value == its literal, children == the results of the sub-parses, compound assignment operator '+'/'-' from the token type); (b) every printer re-emits its node's tokens and children in source order -- the [syntax] clause of each of the 29 WriteTo methods fixes the exact sequence of code-writer calls (leading comments, mapping, token text, children, brackets, semicolon), loops by per-iteration trace contracts; (c) Compile prints the program exactly once through a fresh writer and returns the writer's text unprocessed in compact mode.", []string{
